@@ -217,7 +217,8 @@ def run(ctx, c, pure_diffusion):
     dx, sc = model.derivative(x, mask=flags)
     diffusing = any(k > 0 for (i, j, _, _), row in zip(model.slots, model.kslot) if i != j for k in row)
     system = sut_call("build_system", B.build_system, spec, c["route"])
-    dt = stable_dt(x, sc)
+    from vlib.ratelaw import tame_dt
+    dt = tame_dt(model, flags)
     script = sut_call("RDScript", S.RDScript, system, [0], time_step="%r s" % dt, t_max="%r s" % (dt * 10 ** 7),
                       sampling_policy="on_iteration", rng_seed=c["seed"], init_state_processing=c["mode"])
     traj, done, _ = sut_call("engine run", sim.drive, script, kind, c["steps"])
